@@ -3,8 +3,8 @@
 Op lines (the part after `@` is the item's bucket per row AS DERIVED FROM THE IMPLEMENTATION by the harness's
 `loc` mode; the model uses it as its row-hash parameter and checks that it is a function of (config, item)):
   new <id> <i64|u64|f64> <num_hashes> <num_buckets> <seed>
-  upd <id> <u64|i64|str> <literal> <weight> @ b0 b1 ...
-  q   <id> <u64|i64|str> <literal> @ b0 b1 ...
+  upd <id> <u64|i64|str|raw> <literal> <weight> @ b0 b1 ...
+  q   <id> <u64|i64|str|raw> <literal> @ b0 b1 ...
   dump <id> | merge <dst> <src> | copy <src> <dst> | rt <src> <dst> <bytes|stream> <seed>
   sb <hex double> | sh <hex double>          suggest_num_buckets / suggest_num_hashes
 -/
@@ -96,7 +96,7 @@ def parseKind : String → Option WKind
 /-- item key = canonical bytes (what the code hashes); `none` = empty string (ignored by the code) -/
 def itemKey (ty lit : String) : Option (Option String) :=
   match ty with
-  | "u64" | "i64" | "str" =>
+  | "u64" | "i64" | "str" | "raw" =>
     match parseInput ty lit with
     | some i => some ((canonBytes i).map bytesHex)
     | none => none
